@@ -526,8 +526,9 @@ class SimTerminal:
 class WireFaults:
     """per-run fault configuration of the wire (rates in percent)"""
 
-    def __init__(self, loss=0, dup=0, reorder=0, delay_buckets=(50e-6,), late=0):
+    def __init__(self, loss=0, dup=0, reorder=0, delay_buckets=(50e-6,), late=0, truncate=0):
         self.late = late          # percent of frames that come back 25-45 ms late
+        self.truncate = truncate  # percent of frames that come back cut short
         self.loss = loss
         self.dup = dup
         self.reorder = reorder
@@ -650,6 +651,12 @@ class SimBus:
             frame = self._ring_results.get(no)
             if frame is None:
                 return
+        f = self.faults
+        if f is not None and f.enabled and f.truncate and len(frame) > 32 \
+                and self.tape.chance("wire/truncate", f.truncate):
+            # the frame comes back cut short (a switch or a capture tap in the ring)
+            frame = frame[:20 + self.tape.draw("wire/truncate-at", len(frame) - 20)]
+            self.world.count("fault/frame-truncated")
         self.world.log(self.ifname, "rx", no, frame)
         self.nic_receive(no, frame)
 
